@@ -292,6 +292,7 @@ DoSetRecord(st, name, typ, id, data, S) ==
   LET why == CheckRecord(st, name, typ, data, S) IN
   IF why # "" THEN Rej(why, st)
   ELSE IF ~\E r \in st.recs : SameKey(r, name, typ) /\ r.id = id THEN Rej("state", st)      \* invalid record id
+  ELSE IF \E r \in st.recs : SameKey(r, name, typ) /\ r.id # id /\ r.data = data THEN Rej("state", st)  \* record already exists (fix 3a3e636)
   ELSE Out("HALT", "null", "", [st EXCEPT !.recs = {r \in @ : ~(SameKey(r, name, typ) /\ r.id = id)}
                                                      \cup {[name |-> name, typ |-> typ, id |-> id, data |-> data]}])
 
@@ -486,6 +487,8 @@ StateAllowsOn(st, e) ==
                                 /\ (e.typ = TypCNAME => ~\E r \in st.recs : SameKey(r, e.name, e.typ))
     [] e.act = "setRecord"   -> /\ e.name \in st.names /\ NumLabels(e.name) = 2 /\ LastLabel(e.name) \in st.names /\ "CMT" \in e.S
                                 /\ \E r \in st.recs : SameKey(r, e.name, e.typ) /\ r.id = e.id
+                                /\ ~\E r \in st.recs : SameKey(r, e.name, e.typ) /\ r.id # e.id /\ r.data = e.s   \* a value held under
+                                                                        \* another id is refused for the state, not for its syntax
     [] OTHER -> FALSE
 
 \* accepted <=> well-formed (st = the storage the invocation ran on)
